@@ -3,6 +3,7 @@ package main
 import (
 	"fmt"
 	"math/rand"
+	"runtime"
 	"strconv"
 	"strings"
 	"time"
@@ -243,6 +244,10 @@ func oracleC09(r *Result, run *sessionRun, pipelined bool) {
 				violation(r, "a handler ran on a connection whose session authentication failed", run, "", e.raw)
 			}
 			k := atoi(e.f[1])
+			if k >= len(run.arrs) || run.arrs[k].kind != 'R' {
+				violation(r, "a handler was invoked with a context or payload that does not belong to a request of its connection", run, fmt.Sprintf("sid=%d", run.cfg.sid), e.raw)
+				continue
+			}
 			q := run.arrs[k].req
 			wantSA := "-"
 			if strings.HasPrefix(run.cfg.sa, "ok:") {
@@ -403,6 +408,12 @@ func init() {
 		r.Rule = sessRule("C09 oracle: no call/response after a failed session auth; no call for rejected or uncheckable credentials; every call sees its own connection's session id/auth and its own request's auth value.")
 		b, p := sizes(tier)
 		sessionCorrespondence(r, d, seed*31+9, b, p+2, scriptOpts{maxArr: 8, maxItems: 3}, 150*time.Millisecond, oracleC09)
+		// the same on a single P: a burst of queued connections is accepted back to back before any session goroutine
+		// gets to run, so anything a session reads late from the accept loop's variables is read after the loop moved on
+		old := runtime.GOMAXPROCS(1)
+		sessionCorrespondence(r, d, seed*31+109, b/4+2, p+6, scriptOpts{maxArr: 4, maxItems: 2}, 150*time.Millisecond, oracleC09)
+		runtime.GOMAXPROCS(old)
+		r.Stats["phase:single-P-burst-batches"] = b/4 + 2
 	}
 	props["C10"] = func(r *Result, d *drv.Driver, tier string, seed int64, replay string) {
 		r.Rule = sessRule("C10 oracle: no handler for undecodable / inconsistent / asynchronous messages; the connection is closed; concurrent sessions keep matching their own model traces; Shutdown returns nil after the peers are gone (sessions released).")
@@ -410,8 +421,9 @@ func init() {
 		sessionCorrespondence(r, d, seed*31+10, b, p+2, scriptOpts{maxArr: 5, maxItems: 3, allowStall: true}, 60*time.Millisecond, oracleC10)
 	}
 	props["C15"] = func(r *Result, d *drv.Driver, tier string, seed int64, replay string) {
-		r.Rule = sessRule("C15 oracle: with ReadTimeout every wait for a request is immediately preceded by a fresh read deadline, with WriteTimeout every response by a fresh write deadline, with zero timeouts no deadline is ever set; a peer stalling inside a request is disconnected when the real deadline (60 ms) expires.")
+		r.Rule = sessRule("C15 oracle: with ReadTimeout every wait for a request is immediately preceded by a fresh read deadline, with WriteTimeout every response by a fresh write deadline, with zero timeouts no deadline is ever set; a peer stalling inside a request is disconnected when the real deadline (60 ms) expires; plus the same rules observed on real TLS connections (handshake included) for every zero/non-zero combination of the two timeouts.")
 		b, p := sizes(tier)
 		sessionCorrespondence(r, d, seed*31+15, b, p, scriptOpts{maxArr: 8, maxItems: 2, allowStall: true}, 60*time.Millisecond, oracleC15)
+		c15TLS(r)
 	}
 }
